@@ -11,7 +11,7 @@ WHAT = {
     "value": "a payload value dropped twice, never dropped, or lowered/lifted out of order",
     "lists": "dealloc_lists not exactly once per transferred item",
     "slab": "a lowering slab released twice, early or never",
-    "stream-op-after-dropped-zero": "after StreamResult::Dropped (code DROPPED|0) the end's `done` flag is not set: the next read/write "
+    "stream-op-after-dropped-zero": "(repaired in /repo 44e42ba; a regression if seen) after StreamResult::Dropped (code DROPPED|0) the end's `done` flag is not set: the next read/write "
                                     "reaches the host on an end that is done (host trap, Appendix B)",
     "stream-op-after-dropped-nonzero": "after DROPPED|k (k>0) the end's `done` flag is not set: the next operation traps in the host",
 }
@@ -27,18 +27,17 @@ def run(c):
     chan_common.run_chan(c, "C19", "S", True, WHAT)
     c.cov["partial_obligations"] = [
         "FIFO for the guest-WRITER stream channel is a theorem (stream_writer_fifo: every legal step hands the reader exactly the next "
-        "values the guest exposes and the buffer then exposes exactly the rest; stream_writer_receives_in_order_once), under the hypothesis "
-        "NoUseAfterDropped and with the host as the reader. NOT theorems: the same for the guest-READER direction (below); acceptance of the "
+        "values the guest exposes and the buffer then exposes exactly the rest; stream_writer_receives_in_order_once; no extra hypothesis), "
+        "with the host as the reader. NOT theorems: the same for the guest-READER direction (below); acceptance of the "
         "whole ChanSpec monitor (count-*, return-*, value-*, lists-*, slab-* clauses) by every model trace of a stream channel (it is for "
         "the future channels, C20) — enforced by exact trace equality model vs real runtime + the monitors + Host.End legality on the REAL "
         "traces of every script of the run",
         "guest-READER stream channel (read / next / collect / futures::Stream adapter) as a transition system: invariant stated "
         "(Proofs/StreamRead.lean: shapes, closed/idle cases proved), the step-safety induction is not finished; operation level proved "
-        "(counts_are_hosts_read, dropped_sets_done_partial); validated as above",
+        "(counts_are_hosts_read, dropped_sets_done); validated as above",
         "write_all_terminates_when_host_progresses: induction over hosts that answer every write at once (COMPLETED|k, any legal k per "
-        "write); schedules mixing BLOCKED + later delivery are covered step-wise by stream_never_traps_partial (no termination measure "
+        "write); schedules mixing BLOCKED + later delivery are covered step-wise by stream_never_traps (no termination measure "
         "proved over them) and by the scripts",
-        "full strength `no host trap for every script` is false (stream_never_traps_full_false): known finding stream-op-after-dropped-zero",
     ]
     c.assumptions += [
         "host rules are the Appendix-B transcription in Async/Host.lean (`Host.End`); `cancel traps while the end is in a set` is (R)",
